@@ -32,3 +32,16 @@ def load():
     if not pairs:
         pairs = [(a[0], b[0]) for a in types for b in types if a[0] != b[0]]
     return types, pairs
+
+
+def web_types():
+    """names of the types that implement WebColors (generated table; fallback: the documented eight)"""
+    try:
+        t = open(os.path.join(V, 'coq', 'Gen', 'ColorTable.v')).read()
+        m = re.search(r'Definition web_types : list crow := \[([^\]]*)\]', t)
+        xs = [x.strip()[4:] for x in m.group(1).split(';') if x.strip()]
+        if xs:
+            return xs
+    except Exception:
+        pass
+    return ['Rgb555', 'Rgb565', 'Rgb666', 'Rgb888', 'Bgr555', 'Bgr565', 'Bgr666', 'Bgr888']
